@@ -12,6 +12,12 @@ import (
 	"strings"
 )
 
+// type of a ghost array whose elements have a Go type (so that fields of its elements can be named in specs)
+type ghostArr struct{ elem types.Type }
+
+func (g *ghostArr) Underlying() types.Type { return g }
+func (g *ghostArr) String() string         { return "ghost[]" + g.elem.String() }
+
 type specCtx struct {
 	names     map[string]Value // explicit scope (call by contract); nil = resolve in the unit's own function
 	fi        *FuncInfo
@@ -21,10 +27,11 @@ type specCtx struct {
 	blk       *Block
 	bound     map[string]Value
 	site      token.Pos
+	oldNames  map[string]Value
 }
 
 func (u *Unit) parseSpec(c Clause) ast.Expr {
-	txt := rewriteImplies(c.Text)
+	txt := rewriteImplies(u.Prog.Contracts.Expand(c.Text))
 	e, err := parser.ParseExpr(txt)
 	if err != nil {
 		panic(unsupported{fmt.Sprintf("%s:%d: cannot parse spec expression %q: %v", c.File, c.Line, c.Text, err)})
@@ -102,6 +109,9 @@ func (u *Unit) lookupName(name string, env *Env, sc *specCtx) (Value, bool) {
 			}
 		}
 		if best != nil {
+			if gt, ok := u.ghostTy[best.Name()]; ok && u.ghosts[best.Name()] == best {
+				return Value{env.vars[best], gt}, true
+			}
 			return Value{env.vars[best], best.Type()}, true
 		}
 		if name == "self" && u.recvObj != nil {
@@ -228,6 +238,9 @@ func (u *Unit) sv(e ast.Expr, env *Env, sc *specCtx) Value {
 	case *ast.IndexExpr:
 		b := u.sv(x.X, env, sc)
 		i := u.sv(x.Index, env, sc)
+		if ga, ok := b.Ty.(*ghostArr); ok {
+			return Value{Select(b.Term, i.Term), ga.elem}
+		}
 		if b.Ty != nil {
 			switch t := types.Unalias(b.Ty).Underlying().(type) {
 			case *types.Slice:
@@ -258,6 +271,13 @@ func (u *Unit) sv(e ast.Expr, env *Env, sc *specCtx) Value {
 	}
 	unsup("spec expression %T", e)
 	return Value{}
+}
+
+func safeSort(u *Unit, t types.Type) Sort {
+	if _, ok := t.(*ghostArr); ok {
+		return ""
+	}
+	return u.sortOf(t)
 }
 
 func isNilV(v Value) bool {
@@ -443,6 +463,23 @@ func (u *Unit) specCall(x *ast.CallExpr, env *Env, sc *specCtx) Value {
 			return Value{Forall([]Term{bv}, Imp(rng, body.Term)), boolT}
 		}
 		return Value{Exists([]Term{bv}, And(rng, body.Term)), boolT}
+	case "lamr", "lami":
+		// lamr(r, body): the array A with A[r] == body for every r (Ref-indexed); lami: Int-indexed
+		name := x.Args[0].(*ast.Ident).Name
+		ks := SRef
+		var kty types.Type
+		if fname == "lami" {
+			ks, kty = SInt, intT
+		}
+		bv := u.D.Bound(name, ks)
+		body := u.sv(x.Args[1], env, u.withBound(sc, name, Value{bv, kty}))
+		arr := u.D.Fresh("lam", ArrS(ks, body.Sort))
+		ax := Forall([]Term{bv}, Same(Select(arr, bv), body.Term), []Term{Select(arr, bv)})
+		if strings.Contains(strings.ReplaceAll(ax.S, bv.S, ""), "?") {
+			unsup("lamr/lami under a quantifier")
+		}
+		env.assume(ax)
+		return Value{arr, nil}
 	case "forall2":
 		// forall2(k, lo, hi, l, lo2, hi2, body): one quantifier over two integer variables
 		n1 := x.Args[0].(*ast.Ident).Name
@@ -480,8 +517,8 @@ func (u *Unit) specCall(x *ast.CallExpr, env *Env, sc *specCtx) Value {
 		}
 		n := *sc
 		n.post = false
-		if sc.names == nil {
-			// own function: parameters keep their entry values in old()
+		if sc.oldNames != nil {
+			n.names = sc.oldNames
 		}
 		return u.sv(x.Args[0], sc.old, &n)
 	case "len":
@@ -612,7 +649,7 @@ func (u *Unit) specCall(x *ast.CallExpr, env *Env, sc *specCtx) Value {
 		if v.Sort != arrElemSort(a.Sort) && arrElemSort(a.Sort) == SVal {
 			v = u.specBox(v, env)
 		}
-		return Value{Store(a.Term, i.Term, v.Term), nil}
+		return Value{Store(a.Term, i.Term, v.Term), a.Ty}
 	case "fpeq":
 		a := u.sv(x.Args[0], env, sc)
 		b := u.sv(x.Args[1], env, sc)
